@@ -52,7 +52,7 @@ class Prop(BaseProp):
         with runner.sandbox() as sb:
             home = os.path.join(sb, "home")
             os.makedirs(os.path.join(home, ".config", "cminx"))
-            tree = gen_tree(rng, max_depth=rng.choice([1, 2, 3]), p_sub=0.9, noncmake=False, mixed_case=False)
+            tree = gen_tree(rng, max_depth=rng.choice([1, 2, 3]), p_sub=0.9, noncmake=False, mixed_case=False, case_twins=True)
             for f in list(tree.files):
                 tree.files[f] = self.contents(rng, f)
             loc1 = os.path.join(sb, "loc1", "proj")
